@@ -204,13 +204,35 @@ pub fn mask(out: &mut Out, thorough: bool) {
                 items.push((format!("s_5[{}]/m[{}]", k, i), get_int(at(&j, &format!("/CL03/spok/s_5/{}", k))), m[*i].value.clone()));
             }
             for (name, resp, secret) in &items {
+                if *secret == 0 {
+                    continue; // opening randomness is not on the wire (after the repair of F9): not observable from outside
+                }
                 out.push(&format!("{}/{}", tag, name), "proof_gen", vec![format!("floor({} response / challenge) vs secret", name)],
                     if masked(resp, &ch, secret) { "accept".into() } else { "reject".into() }, &["expect-accept", "mask"]);
             }
-            // ratios of responses: s_2 / s_1 and s_8 / s_7 would both be e if the blinding terms were too short
-            for (a, b) in [("s_2", "s_1"), ("s_8", "s_7")] {
-                out.push(&format!("{}/ratio/{}-{}/e", tag, a, b), "proof_gen", vec![format!("floor({} / {}) vs e", a, b)],
-                    if masked(&g(a), &g(b), &e) { "accept".into() } else { "reject".into() }, &["expect-accept", "mask", "ratio"]);
+            // ratios of responses, all ordered pairs, against every secret the driver knows (e, s, hidden m_i):
+            // s_2 / s_1 and s_8 / s_7 are both e (up to a few units) when the blinding terms are too short
+            let mut resp: Vec<(String, Integer)> = ["s_1", "s_2", "s_3", "s_4", "s_6", "s_7", "s_8", "s_9"].iter().map(|f| (f.to_string(), g(f))).collect();
+            for k in 0..u.len() {
+                resp.push((format!("s_5[{}]", k), get_int(at(&j, &format!("/CL03/spok/s_5/{}", k)))));
+            }
+            let mut secrets: Vec<(String, Integer)> = vec![("e".into(), e.clone()), ("s".into(), s.clone())];
+            for i in &u {
+                secrets.push((format!("m[{}]", i), m[*i].value.clone()));
+            }
+            for (an, a) in &resp {
+                for (bn, b) in &resp {
+                    if an == bn {
+                        continue;
+                    }
+                    for (sn, sx) in &secrets {
+                        let ok = masked(a, b, sx);
+                        if !ok || (an == "s_2" && bn == "s_1") || (an == "s_8" && bn == "s_7") {
+                            out.push(&format!("{}/ratio/{}-{}/{}", tag, an, bn, sn), "proof_gen", vec![format!("floor({} / {}) vs {}", an, bn, sn)],
+                                if ok { "accept".into() } else { "reject".into() }, &["expect-accept", "mask", "ratio"]);
+                        }
+                    }
+                }
             }
             // per-attribute proofs of value under the commitment key
             for (k, i) in u.iter().enumerate() {
